@@ -53,6 +53,8 @@ def generate(rng, tier):
         p.update(ndim=nd, levelmin=rng.choice([1, 2]), levelmax=rng.choice([26, 28, 30]) if nd == 1 else 26, refine_p=0.05, maxcells=300,
                  nboundary=0, ordering=rng.choice(["planar", "angular"]), bound_frac=None, bound_keys=None,
                  chain=[round(rng.uniform(0.05, 0.95), 6) + 1.0 / 3e7 for _ in range(nd)], part=None, prune=[])
+        if rng.random() < 0.5:
+            p["ncpu"] = rng.choice([12, 16, 24, 30])  # two-digit rank numbers next to two-digit level numbers
     elif rng.random() < 0.004:
         # a production-size decomposition: several hundred ranks (rank numbers beyond 256)
         nd = rng.choice([2, 3])
